@@ -1696,6 +1696,8 @@ package ion
 //@ split returns
 //@ requires d.r != nil
 //@ modifies *
+//@ counts (reflect.Value).Set
+//@ ensures[C16,C17] v.IsValid() && old(d.r.IsNull()) ==> vcCalls("(reflect.Value).Set") == 1
 //@ atcall[C16] (*Decoder).decodeBoolTo d.r.Type() == BoolType && !d.r.IsNull()
 //@ atcall[C16] (*Decoder).decodeIntTo d.r.Type() == IntType && !d.r.IsNull()
 //@ atcall[C16] (*Decoder).decodeFloatTo d.r.Type() == FloatType && !d.r.IsNull()
@@ -1813,6 +1815,8 @@ package ion
 //@ atcall[C05,C10] Catalog.FindLatest :: Catalog, string :: [name string, version int] a0 == cat && a1 == name && cat.FindExact(name, version) == nil
 //@ atcall[C05,C09,C10] SymbolTable.MaxID :: SymbolTable :: [imp SharedSymbolTable, version int, maxID int64] maxID < 0 && a0 == imp && imp != nil && imp.Version() == version
 //@ atcall[C05,C10] SharedSymbolTable.Adjust :: SharedSymbolTable, uint64 :: [imp SharedSymbolTable, version int, maxID int64] a0 == imp && a1 == uint64(maxID) && (maxID >= 0 || imp.Version() == version)
+//@ counts SharedSymbolTable.Adjust
+//@ ensures[C10,C11] err == nil && result != nil ==> vcCalls("SharedSymbolTable.Adjust") == 1 || (vcIsBogusSST(result) && vcFresh(vcAsBogusSST(result)))
 //@ ensures[C10] err == nil && result != nil && cat == nil ==> vcIsBogusSST(result)
 //@ ensures[C10] err == nil && result != nil && cat == nil ==> vcAsBogusSST(result).version >= 1
 //@ ensures[C10] err == nil && result != nil && cat == nil ==> vcAsBogusSST(result).name != ""
@@ -2123,3 +2127,15 @@ package ion
 //@ ensures[C09,C10] forall i int :: 0 <= i && i < len(symbols) ==> vcAsLST(result).symbols[i] == symbols[i]
 //@ ensures[C09,C10] vcAsLST(result).maxImportID == vcAsLST(result).offsets[len(vcAsLST(result).offsets)-1]+vcAsLST(result).imports[len(vcAsLST(result).imports)-1].MaxID()
 //@ safe[C06,C09]
+
+// ---------------------------------------------------------------------------
+// buf.go: emitting a buffered datagram writes every child, in order, and reports the first
+// failure (C19, C12): success means all children were emitted.
+//@ func (*datagram).EmitTo
+//@ split returns
+//@ requires forall i int :: 0 <= i && i < len(d.children) ==> d.children[i] != nil
+//@ counts bufnode.EmitTo
+//@ modifies nothing
+//@ invariant[C12,C19] loop0 [idx_ int] -1 <= idx_ && idx_ < len(d.children) && vcCalls("bufnode.EmitTo") == idx_+1
+//@ ensures[C12,C19] err == nil ==> vcCalls("bufnode.EmitTo") == len(d.children)
+//@ safe[C06]
